@@ -299,6 +299,8 @@ theorem meshForms_spec : EasyFEAVerif.Gen.C15.meshForms =
      ("Save", ["self.folder = folder", "folder_meshes = Folder.Join(folder, 'Meshes')", "mesh = self.__Load_mesh(mesh)", "path = mesh.Save(folder_meshes, f'mesh{i}')", "list_mesh.append(Folder.os.path.relpath(path, folder))", "self.__listMesh = list_mesh", "self.__folderMeshes = folder", "pickle.dump(self, file)"]),
      ("__Load_mesh", ["folder = self.__folderMeshes", "return Load_Mesh(Folder.Join(folder, mesh))"]),
      ("folder.setter", ["self.__folder = value"]),
+     ("Mesh.Save", ["for elemType, groupElem in self.dict_groupElem.items()", "createData = (groupElem.connect, coordinates)", "dict_groupElem_data[elemType] = (createData, partitionedData, dict_nodes_tags)", "pickle.dump(dict_groupElem_data, file)"]),
+     ("Load_Mesh", ["for elemType, data in dict_groupElem_data.items()", "groupElem = GroupElemFactory.Create(elemType=elemType, connect=connect, coordinates=coordinates)", "dict_groupElem[elemType] = groupElem", "mesh = Mesh(dict_groupElem=dict_groupElem)"]),
      ("__init__", ["self.__NindexMesh: int = -1", "self.__listMesh: list[Union[str, Mesh]] = []"])] := by
   decide
 
@@ -392,3 +394,26 @@ theorem unfixed_folder_change_loses_meshes :
   decide
 
 end EasyFEAVerif.Props.C15.MeshStoreP
+
+/-! ### the mesh file keeps the element groups and their order (`Mesh.Save`, `Load_Mesh`) -/
+
+namespace EasyFEAVerif.Props.C15.MeshFile
+
+/-- `Mesh.Save` writes one record per element group in the order of `dict_groupElem`; `Load_Mesh` rebuilds the groups in file
+order. With `dec (enc g) = g` for every group (pickle's round trip on the connectivity, the coordinates, the partition data and
+the tags), the loaded mesh has the same groups IN THE SAME ORDER - the element numbering of results (`mesh.Ne`, per-element
+arrays) follows that order. -/
+theorem save_load_keeps_groups_and_order {G D : Type} (enc : G → D) (dec : D → G) (h : ∀ g, dec (enc g) = g) (l : List (String × G)) :
+    (l.map fun p => (p.1, enc p.2)).map (fun p => (p.1, dec p.2)) = l := by
+  induction l with
+  | nil => rfl
+  | cons a t ih =>
+    simp only [List.map_cons, h]
+    exact congrArg (a :: ·) (by simpa using ih)
+
+/-- writing the groups dimension by dimension through a getter that lists the groups of one dimension in reverse order
+(seed C15_J) permutes two groups of the same dimension -/
+example : ([("QUAD4", 2), ("TRI3", 2), ("SEG2", 1)].filter (·.2 == 2)).reverse ++ ([("QUAD4", 2), ("TRI3", 2), ("SEG2", 1)].filter (·.2 == 1)).reverse
+    ≠ [("QUAD4", 2), ("TRI3", 2), ("SEG2", 1)] := by decide
+
+end EasyFEAVerif.Props.C15.MeshFile
